@@ -71,6 +71,11 @@ CLAIMED = {
             "segments stay separate, the user's detector stays unfitted; same with real PELT / MovingWindow / SBS on "
             "table scorers inside (product run); lower>upper raises ValueError",
             "4.C17"),
+    "C05": ("detection sets as tuples of symbolic integers under the validity predicate of the sparse format, every "
+            "solution enumerated by the solver (all-SAT through integer case splitting) and pushed through "
+            "sparse_to_dense / dense_to_sparse / transform (stub detectors) for seven index kinds and two column "
+            "labelings; bounded-exhaustive over that solver-enumerated space, compared with a plain-Python oracle",
+            "4.C05"),
 }
 PENDING = {}
 TITLES = {}
